@@ -76,6 +76,7 @@ def check(ctx):
     ctx.rule("R3", "each registered converter is paired with its confirmed detyper (and validator family) in the Var registry and ENSURERS", floor=25)
     ctx.rule("R4", "detype stores a string for a variable only past the three skips: DELETE_VAR mask, no detyper, None result", floor=3)
     ctx.rule("R5", "the child's environment is computed inside the per-command swap, at launch time", floor=2)
+    ctx.rule("R11", "every value in the variable store passed its variable's converter: stores into the store happen in _set_item (after the conversion) or put in a value that needs none (the DELETE_VAR mask, a typed constructor, a materialised default) - never a value as it came in; detype() applies the *typed* detyper to whatever it finds (an inherited `8128 comands` kept as text reaches children as '8 1')", floor=4)
     ctx.rule("R10", "a scoped override that ends never unsets a variable that was set before it began: the restore step deletes a key only for the 'absent before' marker, and the capture step hands out that marker only on evidence that the key was absent from every layer (deleting also removes the variable from the os.environ mirror and from later children)", floor=2)
     ctx.rule("R9", "which validator / converter / detyper a name gets is computed from the live registry and the live pattern rules on every call: the lookup methods keep no memo on the Env (pattern rules are edited in place: `$XONSH_ENV_PATTERN_DIRS.exclude.append(..)`)", floor=4)
     ctx.rule("R8", "the memoised mapping itself never leaves detype(): every return is a fresh mapping (callers edit what they get)", floor=2)
@@ -387,6 +388,7 @@ def check(ctx):
     _memo_escape(ctx, meths)
     _lookup_purity(ctx, mod, meths)
     _restore_never_unsets(ctx, mod, meths)
+    _typed_store(ctx, mod, meths)
     _overlay_index_safety(ctx, sp)
     _overlay_ownership(ctx, sp)
 
@@ -483,6 +485,41 @@ def _restore_never_unsets(ctx, mod, meths):
     for lp, var, sets in restore_loops:
         ok = bool(sets) and all(len(c.args) >= 2 and unparse(c.args[1]) == var for c in sets)
         ctx.ob("R10", st, "a key that existed before is restored to exactly the captured value", ok, key="swap|restore-not-captured-value", where=loc(lp))
+
+
+
+def _typed_store(ctx, mod, meths):
+    n = 0
+    for nm, m in meths.items():
+        defs = None
+        for a in walk_local(m):
+            tgt = val = None
+            if isinstance(a, ast.Assign):
+                for t in a.targets:
+                    if isinstance(t, ast.Subscript) and unparse(t.value) == "self._d":
+                        tgt, val = t, a.value
+            elif isinstance(a, ast.Expr) and isinstance(a.value, ast.Call) and unparse(a.value.func) in ("self._d.set_locally", "self._d.__setitem__", "self._d.setdefault") and len(a.value.args) == 2:
+                tgt, val = a.value, a.value.args[1]
+            if tgt is None:
+                continue
+            n += 1
+            if nm == "_set_item":
+                ok, why = True, "inside _set_item (the converting setter)"
+            else:
+                v = val
+                if isinstance(v, ast.Name):
+                    defs = defs or df.all_defs(m)
+                    ds = [d for d in defs.get(v.id, []) if d.value is not None]
+                    v = ds[0].value if len(ds) == 1 else v
+                typed = isinstance(v, ast.Call) and ((call_name(v) or "")[:1].isupper() or (call_name(v) or "").split(".")[-1][:1].isupper())
+                mask = unparse(v) == "DELETE_VAR"
+                default = isinstance(v, ast.Call) and isinstance(v.func, ast.Name) and len(v.args) == 1 and unparse(v.args[0]) == "self"
+                conv = isinstance(v, ast.Call) and any(k in (call_name(v) or "") for k in ("convert", "ensure", "_set_item"))
+                ok = typed or mask or default or conv
+                why = None if ok else f"`{short(val, 40)}` is stored as it came in"
+            ctx.ob("R11", f"{EN}:Env.{nm}", f"`{short(a, 60)}` puts a converted (or conversion-free) value into the store", ok, key=f"Env.{nm}|raw-store|{unparse(val)[:30]}", where=loc(a), detail=why)
+    if n < 4:
+        raise AnalysisError(f"{EN}: only {n} store sites of Env found")
 
 
 def _lookup_purity(ctx, mod, meths):
